@@ -376,9 +376,17 @@ def gen_flatten2(rng):
             "partitioning": None, "loop_order": None, "spacetime": None, "arch": None, "bindings": None, "format": None}
     pr = _perm(rng, ranks)
     g1, g2 = pr[:2], pr[2:]
-    part = {"(%s, %s)" % tuple(g1): ["flatten()"], "(%s, %s)" % tuple(g2): ["flatten()"]}
+    part = {}
+    pre = None
+    if rng.random() < 0.35:
+        # the second group contains a rank level that only exists after a shape split (sigma pattern)
+        pre = rng.choice(g2)
+        part[pre] = ["uniform_shape(%d)" % rng.choice([2, 3, 4])]
+        g2 = [x + "0" if x == pre else x for x in g2]
+    part["(%s, %s)" % tuple(g1)] = ["flatten()"]
+    part["(%s, %s)" % tuple(g2)] = ["flatten()"]
     f1, f2 = "".join(g1), "".join(g2)
-    groups = [[f1], [f2]]
+    groups = [[f1], ([pre + "1"] if pre else []) + [f2]]
     if rng.random() < 0.4:
         part[f1] = ["uniform_occupancy(A.%d)" % rng.choice([1, 2, 3])]
         groups[0] = [f1 + "1", f1 + "0"]
@@ -388,7 +396,7 @@ def gen_flatten2(rng):
     extents = gen_extents(rng, spec, 5)
     meta = {"ranks": ranks, "out_only": [], "kind": "times", "nterms": 1, "scalars": [], "part": part, "syms": {},
             "lo_mode": "ordered" if spec["loop_order"] else "default", "extents": extents, "omode": "flatten2",
-            "flat": {"tensor": "A", "ranks": g1 + g2, "under_shape": None, "nocc": 0}, "nlevels": len(part), "npart": len(part)}
+            "flat": {"tensor": "A", "ranks": g1 + g2, "under_shape": pre, "nocc": 0}, "nlevels": len(part), "npart": len(part)}
     return spec, meta
 
 
